@@ -113,7 +113,13 @@ func (fr *Frame) expandIterator(fc *FuncContract, key string, ci ssa.CallInstruc
 		enc.assume(Implies(pc, trInv(inv, st, k, done)), "iterator invariant "+inv.Where())
 	}
 	head := st.clone()
-	// one more invocation
+	// one more invocation (its assumptions are scoped: irrelevant once the expansion is finished)
+	savedScope := enc.curScope
+	enc.nScopes++
+	myScope := enc.nScopes
+	if savedScope == 0 {
+		enc.curScope = myScope
+	}
 	bodyPC := enc.define("pc_it", "Bool", And(pc, Lt(k, n), Not(done)))
 	fr.cur, fr.curPC = st.clone(), bodyPC
 	elEnv := fr.iterEnv(fc, args, argTypes, fr.cur, k)
@@ -154,6 +160,13 @@ func (fr *Frame) expandIterator(fc *FuncContract, key string, ci ssa.CallInstruc
 			trInv(inv, after, Add(k, IntLit(1)), doneAfter))
 	}
 	// after the iteration: stopped or exhausted
+	if savedScope == 0 {
+		enc.curScope = 0
+		if enc.closed == nil {
+			enc.closed = map[int]bool{}
+		}
+		enc.closed[myScope] = true
+	}
 	fr.cur, fr.curPC = head, pc
 	enc.assume(Implies(pc, Or(done, Le(n, k))), "iterator finished: stopped or every element visited")
 	enc.w.assumptions["call of "+short+" expanded into a loop over its callback (iterator contract: "+fc.Iterates.Text+")"] = true
